@@ -42,7 +42,8 @@ ASSUMPTIONS = [
     "undefined behaviour in git's C (shift >= 64) and excluded (GUndef)",
     "uint is 64 bits; len(src), len(tgt) < 2^63 (Go slice lengths) in the round-trip theorems, len(src) <= 2^32 forced by encodeCopyOperation",
 ]
-RULE = ("apply: (src, delta) with deltas from a grammar {valid, truncated at a byte, wrong header sizes on the grid, copy past the source, "
+RULE = ("apply: (src, delta) with deltas from a grammar {valid, non-canonical (explicit zero operand bytes for every subset of the "
+        "4 offset / 3 size bits, both spellings of a 64 KiB copy on sources just over 64 KiB, split inserts, zero-padded headers), truncated at a byte, wrong header sizes on the grid, copy past the source, "
         "copy size 0 (=64 KiB), cmd 0, trailing garbage, < 4 bytes, 9/10/11-byte varints, empty source, bit flips, random bytes}; "
         "diff: (src, tgt) pairs {equal, disjoint, edits, repeated 16-byte blocks, insert runs 126..255, copies 65535..131072, "
         "src/tgt < 16 bytes, empty}; non-trivial = delta/target non-empty; distinct by content")
@@ -85,7 +86,7 @@ def rand_src(rng, big=False):
         return D.seg(rbytes(rng, rng.randrange(1, 16)))
     if r < 0.8:
         return D.seg(rbytes(rng, rng.randrange(16, 200), rng.choice([None, b"ab", b"abcdefgh\n"])))
-    return D.seg(rbytes(rng, rng.randrange(200, 1500), rng.choice([None, b"abc\n"])))
+    return D.seg(rbytes(rng, rng.randrange(200, 700), rng.choice([None, b"abc\n"])))
 
 
 def valid_delta(rng, src, nops=None, tgt_limit=4000):
@@ -195,6 +196,85 @@ def gen_apply_case(rng, bucket):
     return {"bucket": bucket, "kind": "apply", "src": src_segs, "delta": D.seg(delta), "chunk": rng.choice([0, 0, 1, 2, 3])}
 
 
+# ---- non-canonical encodings git accepts: explicit zero operand bytes of copy commands (every subset of the
+# 4 offset bits and 3 size bits), the two spellings of a 64 KiB copy (size 0 = no/zero size bytes, or 0x010000),
+# split inserts, zero-padded header varints (up to 9 bytes)
+
+SIZE_FORMS = [("zero", m) for m in range(1, 8)] + [("one", m) for m in range(4)] + [("canon", 0)]
+
+
+def padded_hdr(rng, n):
+    need = max(1, (n.bit_length() + 6) // 7)
+    return D.leb_padded(n, rng.choice([need, need, min(9, need + 1), rng.randrange(need, 10)]))
+
+
+def noncanon_64k_case(rng, omask, form, exact=True):
+    """one 64 KiB copy on a source of just over 64 KiB, the size spelled `form`, offset bytes `omask` explicit"""
+    r = rng.randrange(1, 40)
+    pat = rbytes(rng, rng.choice([16, 31, 64]))
+    n = MAXC // len(pat) + 1
+    src_segs = [[pat.hex(), n]] + D.seg(rbytes(rng, r + (len(pat) * n - MAXC) % 3))
+    srclen = len(pat) * n + len(D.expand(src_segs[1:]))
+    off = 0 if omask & 1 else rng.choice([0, rng.randrange(0, min(255, srclen - MAXC) + 1)])
+    kind, m = form
+    if kind == "zero":
+        op = D.copy_op(off, MAXC, omask | (m << 4))              # explicit all-zero size bytes
+    elif kind == "one":
+        op = D.copy_op(off, MAXC, omask | (m << 4) | 0x100)      # 0x010000 with optional explicit zero low bytes
+    else:
+        op = D.copy_op(off, MAXC, omask)                         # no size byte at all
+    pre = D.insert_op(rbytes(rng, rng.randrange(1, 4))) if rng.random() < 0.5 else b""
+    post = D.insert_op(rbytes(rng, rng.randrange(1, 4))) if rng.random() < 0.5 else b""
+    tl = MAXC + (len(pre) - 1 if pre else 0) + (len(post) - 1 if post else 0)
+    if not exact:
+        tl += rng.choice([1, -1])
+    delta = padded_hdr(rng, srclen) + padded_hdr(rng, tl) + pre + op + post
+    return {"bucket": "noncanon-64k", "kind": "apply", "src": src_segs, "delta": D.seg(delta), "chunk": rng.choice([0, 0, 1, 2])}
+
+
+def noncanon_small_case(rng, combos):
+    """many short copy commands with explicit zero operand bytes; combos = [(offset mask, size mask)]"""
+    src = rbytes(rng, rng.randrange(520, 700))
+    ops, tgt = [], bytearray()
+    for omask, smask in combos:
+        # an explicit byte is a zero byte only if the value has a zero there: pick values accordingly
+        off = rng.choice([0, 256, 512]) if omask & 1 else rng.choice([0, 256, rng.randrange(len(src) - 300)])
+        if smask & 1:
+            sz = 256                                              # low size byte zero, explicit
+        else:
+            sz = rng.choice([1, 2, 16, 255, 256, rng.randrange(1, 200)])
+        sz = min(sz, len(src) - off)
+        if smask & 1 and sz != 256:
+            smask &= ~1
+        ops.append(D.copy_op(off, sz, omask | (smask << 4)))
+        tgt += src[off:off + sz]
+        if rng.random() < 0.4:                                     # inserts split into several commands
+            data = rbytes(rng, rng.randrange(1, 6))
+            for ch in data:
+                ops.append(D.insert_op(bytes([ch])))
+            tgt += data
+    delta = padded_hdr(rng, len(src)) + padded_hdr(rng, len(tgt)) + b"".join(ops)
+    return {"bucket": "noncanon-small", "kind": "apply", "src": D.seg(src), "delta": D.seg(delta), "chunk": rng.choice([0, 0, 1, 2, 3])}
+
+
+def noncanon_cases(rng, tier):
+    cases = []
+    combos = [(o, sm) for o in range(16) for sm in range(8)]
+    rng.shuffle(combos)
+    per = 16 if tier == "quick" else 8
+    for k in range(0, len(combos), per):
+        cases.append(noncanon_small_case(rng, combos[k:k + per]))
+    if tier == "quick":
+        start = rng.randrange(16)
+        for j, form in enumerate(SIZE_FORMS):                      # every spelling of the size, rotating offset masks
+            cases.append(noncanon_64k_case(rng, (start + 5 * j) % 16, form, exact=(j % 6 != 5)))
+    else:
+        for omask in range(16):
+            for form in SIZE_FORMS:
+                cases.append(noncanon_64k_case(rng, omask, form, exact=rng.random() < 0.9))
+    return cases
+
+
 APPLY_BUCKETS = [(6, "valid"), (3, "truncated"), (2, "srcsz"), (3, "tgtsz"), (4, "copy-range"), (2, "cmd0"), (2, "trailing"),
                  (3, "tiny"), (3, "varint"), (3, "bitflip"), (2, "random"), (2, "empty-src"), (3, "short-insert")]
 
@@ -217,17 +297,21 @@ class Apply(Suite):
     name = "apply"
     go_cmd = "c06"
     coq_imports = "From GoGit Require Import Model.Delta Spec.GitDelta."
-    quick_n = 160
+    quick_n = 130
     thorough_n = 1200
-    coq_chunk = 40
+    coq_chunk = 50
 
     def gen(self, rng, n, tier):
         cases = []
-        nbig = 3 if tier == "quick" else 24
-        for _ in range(nbig):
-            cases.append(gen_apply_case(rng, "big-copy"))
-        for _ in range(n - nbig):
-            cases.append(gen_apply_case(rng, pick_weighted(rng, APPLY_BUCKETS)))
+        nbig = 1 if tier == "quick" else 24
+        heavy = [gen_apply_case(rng, "big-copy") for _ in range(nbig)] + noncanon_cases(rng, tier)
+        light = [gen_apply_case(rng, pick_weighted(rng, APPLY_BUCKETS)) for _ in range(n - nbig)]
+        # spread the 64 KiB cases evenly so that the parallel Coq chunks take about the same time
+        step = max(1, len(light) // max(1, len(heavy)))
+        for k, h in enumerate(heavy):
+            cases.extend(light[k * step:(k + 1) * step])
+            cases.append(h)
+        cases.extend(light[len(heavy) * step:])
         if tier == "thorough":
             # truncation at every byte of a few valid deltas
             for _ in range(8):
@@ -327,7 +411,7 @@ class Apply(Suite):
         cases = [c for c in cases if c.get("kind") == "apply"]
         git = getattr(self, "_gitres", None) or self._git(ctx, cases, impl)
         exprs = ["c06_spec_run %s %s" % (D.coq_segs(c["src"]), D.coq_segs(c["delta"])) for c in cases]
-        outs = ctx.coq_eval(self.coq_imports, exprs, chunk=self.coq_chunk)
+        outs = ctx.coq_eval(self.coq_imports, exprs, chunk=2 * self.coq_chunk)
         bad = undef = skipped = 0
         for c, o in zip(cases, outs):
             gv, gx = git[c["id"]]
@@ -440,7 +524,7 @@ class Diff(Suite):
     coq_imports = "From GoGit Require Import Model.Delta."
     quick_n = 60
     thorough_n = 400
-    coq_chunk = 30
+    coq_chunk = 40
 
     def __init__(self):
         self._impl = {}
